@@ -158,4 +158,5 @@ namespace fsh
     void run_raster_bishop(Scenario& scn, std::ostream& os);
     void run_profile(Scenario& scn, std::ostream& os);
     void run_mesh(Scenario& scn, std::ostream& os);
+    void run_pool(Scenario& scn, std::ostream& os);
 }
